@@ -167,10 +167,10 @@ def _outer_distance_mod_n(ref: Arr(Real, None), est: Arr(Real, None), modulus: R
     ensures(forall2_rect(length(ref), length(est), lambda i, j: 0 <= result[i, j] and 2 * result[i, j] <= modulus), label='range', props="C05")
 
 
-@contract("mir_eval.util.intervals_to_durations", props="C12 C04 C14")
+@contract("mir_eval.util.intervals_to_durations", props="C12 C04 C14 C05")
 def intervals_to_durations(intervals: Arr(Real, None, 2)) -> Arr(Real, None):
     raises(ValueError, when=not forall(0, length(intervals), lambda i: 0 <= intervals[i, 0] and 0 <= intervals[i, 1] and intervals[i, 0] < intervals[i, 1]), props="C14")
-    ensures(length(result) == length(intervals), forall(0, length(intervals), lambda i: result[i] == absr(intervals[i, 1] - intervals[i, 0])), label='durations')
+    ensures(length(result) == length(intervals), forall(0, length(intervals), lambda i: result[i] == absr(intervals[i, 1] - intervals[i, 0])), label='durations', props="C12 C04 C05")
 
 
 @contract("mir_eval.beat.trim_beats", props="C03 C14", mask_triggers=True)
